@@ -32,8 +32,9 @@ CLAIMED = {
   text="Lean 4 theorems for every length, index and optional (start, stop, step) in Int: s[i] succeeds iff -n <= i < n and then "
        "selects position i (mod n), otherwise IndexOutOfBounds; the slyce index algorithm as driven by Slicing::exec only ever "
        "selects valid positions (slicing cannot fail), selects nothing for step 0, and its clamped bounds equal CPython's "
-       "PySlice_AdjustIndices bounds for both step signs. Equality of the selected position *list* with CPython's range is checked "
-       "by the driver on every request (model-internal) and against CPython itself, not yet proved. Tied by a differential stream "
+       "PySlice_AdjustIndices bounds for both step signs, and the *list* of positions it selects is exactly CPython's "
+       "range(start', stop', step) for every n and every optional start / stop / step (slice_eq_python: slyce's iteration is the "
+       "arithmetic progression of CPython's computed length). Tied by a differential stream "
        "over an exhaustive index/triple grid on arrays and multi-byte strings in folded and run-time form, plus std.len.",
   note="Lean kernel; hand model of at.rs and slyce 0.3.1 tied by correspondence only; CPython's slicing is the direct oracle; "
        "`as isize` assumed to be the identity (64-bit target).",
